@@ -451,7 +451,7 @@ func countKind(h []HOp, k string) int {
 	return n
 }
 
-const rule = "Case = one run of 2-32 (every fourth run of families A/C: 48-96, i.e. more callers than the request manager's 24 worker slots) client goroutines calling SamehadaDB.ExecuteSQL concurrently (a quarter of the family-A runs use a 600-row table of padded rows in a pool that cannot hold it, through sequential scans only: buffer pressure; a third of those instead update a 60-row table (3-5 callers) with a payload string of changing length, so that rows relocate and aborted statements have moves to take back) (GOMAXPROCS 2/4/16, in-memory and file mode, SQL- and catalog-created table t(id,g1,g2,v) with 4-60 rows and overlapping groupings g1 = id%2, g2 = id/2): family A (4-32 clients, disjoint groups) = multi-row UPDATE t SET v=<unique> WHERE g1=<x> and SELECT id,v WHERE g1=<x> (in half of the runs 50-100% of these statements carry a never-true OR branch, which forces the sequential-scan path instead of the index range scan) -> inside one answer all rows of a group carry one value and an overwritten value never comes back to the same client; family B (4-8 clients, overlapping groupings g1/g2, 8-15 calls each) -> the recorded history (call/return stamps from a shared logical clock) must be linearizable against a multi-register in which an update writes its whole group at once (so a reader seeing a group half-updated, a lost or doubled update, or a stale read after return all fail), checked with porcupine; family C = concurrent INSERTs of unique ids and single-row updates on 2-3 hot rows (internal abort/retry frequent) -> every id exactly once, every row's final value written by an update of that row. Every reply must have its own statement's shape (column count, ids of the requested group). A watchdog reports a run in which no call completed for 120 s. Non-trivial = a run with at least two calls overlapping in real time, one of them a write."
+const rule = "Case = one run of 2-32 (every fourth run of families A/C: 48-96, i.e. more callers than the request manager's 24 worker slots) client goroutines calling SamehadaDB.ExecuteSQL concurrently (a quarter of the family-A runs use a 600-row table of padded rows in a pool that cannot hold it, through sequential scans only: buffer pressure; a third of those instead update a 60-row table (3-5 callers) with a payload string of changing length, so that rows relocate and aborted statements have moves to take back - not generated while known finding KF-C12-relocated-row-missed-by-concurrent-update is listed) (GOMAXPROCS 2/4/16, in-memory and file mode, SQL- and catalog-created table t(id,g1,g2,v) with 4-60 rows and overlapping groupings g1 = id%2, g2 = id/2): family A (4-32 clients, disjoint groups) = multi-row UPDATE t SET v=<unique> WHERE g1=<x> and SELECT id,v WHERE g1=<x> (in half of the runs 50-100% of these statements carry a never-true OR branch, which forces the sequential-scan path instead of the index range scan) -> inside one answer all rows of a group carry one value and an overwritten value never comes back to the same client; family B (4-8 clients, overlapping groupings g1/g2, 8-15 calls each) -> the recorded history (call/return stamps from a shared logical clock) must be linearizable against a multi-register in which an update writes its whole group at once (so a reader seeing a group half-updated, a lost or doubled update, or a stale read after return all fail), checked with porcupine; family C = concurrent INSERTs of unique ids and single-row updates on 2-3 hot rows (internal abort/retry frequent) -> every id exactly once, every row's final value written by an update of that row. Every reply must have its own statement's shape (column count, ids of the requested group). A watchdog reports a run in which no call completed for 120 s. Non-trivial = a run with at least two calls overlapping in real time, one of them a write."
 
 var assumptions = []string{
 	"schedules are whatever the Go runtime produces; not reproducible by seed (the recorded history is the reproducible unit; replay re-checks it and re-runs the workload)",
@@ -485,7 +485,13 @@ func TestConcurrent(t *testing.T) {
 			// a table of several dozen pages in a pool that cannot hold it, read and updated through sequential scans: the clients
 			// evict each other's (dirty) pages all the time
 			r.Clients, r.OpsPer, r.Rows, r.Pad, r.KB, r.SQLTable, r.SeqPct = 6+rng.Intn(7), 5+rng.Intn(4), 600, 150, 200, false, 100
-			if rng.Intn(3) == 0 {
+			grow := rng.Intn(3) == 0 || os.Getenv("VERIF_C12_GROW") != ""
+			if grow && s.ExclusionOn("size-changing-updates-under-concurrency") {
+				// known finding KF-C12-relocated-row-missed-by-concurrent-update: not generated while it is listed
+				s.Excluded("size-changing-updates-under-concurrency")
+				grow = false
+			}
+			if grow {
 				// size-changing multi-row updates on a smaller table (rows relocate; conflicts abort statements that have moved rows)
 				// (few clients and short groups: a statement that loses a conflict takes back up to a group's worth of moves, and with
 				// many clients on long groups the retries alone can keep every call busy for minutes)
